@@ -158,10 +158,7 @@ theorem natives_opt (name : String) (self : Value N) (args : List (Value N)) (st
   have h1 : VOk st (args.tail.headD .empty) := headD_ok (vsOk_tail hargs)
   unfold nativePure
   dsimp only
-  split
-  · nat_close
-  · split
-    all_goals (repeat (any_goals nat_step))
+  repeat (any_goals nat_step)
 
 
 /-- the hypothesis of `eval_wf`, discharged -/
